@@ -15,6 +15,7 @@ import (
 	_ "verif/props/c10"
 	_ "verif/props/c11"
 	_ "verif/props/c14"
+	_ "verif/props/c20"
 	_ "verif/props/c24"
 )
 
